@@ -490,7 +490,17 @@ func TestC04(t *testing.T) {
 	}
 	r.Set("methods_compared_nonempty", mc)
 	r.Set("methods_excluded", facadeExclude)
-	finish(t, r, r.N(30, 60), "bridge/*", "l1info/*", "ger/*")
+	// driver level (plane shared with C06): the node dies right after a block was recorded, restarts,
+	// the chain grows and a fork drops that block; the store must look as if it had never seen it
+	nDrv := r.N(6, 60)
+	parallel(nDrv, runtime.NumCPU(), func(i int) {
+		caseID := fmt.Sprintf("driver-window/%d", i)
+		if !r.Only(caseID) {
+			return
+		}
+		c06Window(r, caseID, rng(r, "c04window", i), "crash-after-process")
+	})
+	finish(t, r, r.N(30, 60), "bridge/*", "l1info/*", "ger/*", "window/crash-after-process*")
 }
 
 func sampleH(g *rand.Rand, hs []common.Hash, n int) []common.Hash {
